@@ -122,12 +122,59 @@ func runC16(r *Run, replay *Case) {
 		}
 	}
 	r.Res.Rule = "placements of one or more v-once elements (top level, loop child, loop root, nested loops, component included 1..3 times, several components, component in a loop, layout + page, v-if branch) x " +
-		"four entry points x 3 repeated renders on one engine; non-trivial = every case; distinct by (placement, entry point)"
+		"four entry points x 3 repeated renders on one engine, and each placement rendered after a FAILED render of the same template (4 rounds, same process); non-trivial = every case; distinct by (placement, entry point)"
 	for _, cs := range c16Cases() {
 		for _, e := range c16Entries {
 			if c := c16Eval(cs, e, 3); c != nil {
 				r.Add(c)
 			}
+		}
+	}
+	// a render that FAILS after it has reached its v-once elements, then the same page rendered successfully: the second render starts afresh.
+	// The failing variant appends an include of a missing file; it runs on the same engine, and on a second engine in the same process.
+	for _, cs := range c16Cases() {
+		if strings.Contains(cs.files[cs.page], "layout:") {
+			continue
+		}
+		for _, e := range []string{"template-render", "vue-render", "render-string"} {
+			if e == "render-string" && strings.HasPrefix(cs.files[cs.page], "---") {
+				continue
+			}
+			bad := c16Case{desc: cs.desc, page: cs.page, files: map[string]string{}, want: cs.want}
+			for n, src := range cs.files {
+				bad.files[n] = src
+			}
+			bad.files[cs.page] = cs.files[cs.page] + `<template include="no-such-file.vuego"></template>`
+			mk := func(files map[string]string) (vuego.Template, fstest.MapFS) {
+				mfs := fstest.MapFS{}
+				for n, src := range files {
+					mfs[n] = &fstest.MapFile{Data: []byte(src), ModTime: time.Unix(1700000000, 0)}
+				}
+				return vuego.NewFS(mfs), mfs
+			}
+			badT, badFS := mk(bad.files)
+			goodT, goodFS := mk(cs.files)
+			c := &Case{Name: "after failed render: " + cs.desc + " via " + e, Input: map[string]any{"desc": cs.desc, "entry": e, "afterFailure": true}, Key: "af:" + cs.desc + e, Tags: []string{"after-failure", "entry:" + e}, Oracle: &Verdict{OK: true}}
+			var outs []string
+			for round := 0; round < 4 && c.Oracle.OK; round++ {
+				_, ferr := c16Render(bad, e, badT, badFS)
+				if ferr == nil {
+					break // this placement does not reach the failing include (nothing to test)
+				}
+				out, err := c16Render(cs, e, goodT, goodFS)
+				outs = append(outs, out)
+				if err != nil {
+					c.Oracle = &Verdict{OK: false, Class: "render-error:" + cs.desc + ":after-failure", Detail: err.Error()}
+					break
+				}
+				for m, w := range cs.want {
+					if g := strings.Count(out, m); g != w && c.Oracle.OK {
+						c.Oracle = &Verdict{OK: false, Class: "once-count:" + cs.desc + ":after-failure", Detail: fmt.Sprintf("round %d: after a render of the same template failed, marker %s appears %d times, expected %d; output %q", round+1, m, g, w, out)}
+					}
+				}
+			}
+			c.Impl = outs
+			r.Add(c)
 		}
 	}
 	// interleaved renders of different pages on one engine
